@@ -1474,6 +1474,233 @@ fn stream_perop(ctx: &mut Ctx, schema: &Valid<Schema>) {
     }
 }
 
+// ------------------------------------------------------------------------------------------------
+// generator audit GB: systematic families for shapes the random generators (almost) never reach
+// ------------------------------------------------------------------------------------------------
+const SCHEMA_DIRS_EXTRA: &str = r#"
+directive @dQ on QUERY
+directive @dM on MUTATION
+directive @dS on SUBSCRIPTION
+directive @dF on FIELD
+directive @dG on FRAGMENT_DEFINITION
+directive @dP on FRAGMENT_SPREAD
+directive @dI on INLINE_FRAGMENT
+directive @dV on VARIABLE_DEFINITION
+directive @dT on OBJECT | FIELD_DEFINITION | ARGUMENT_DEFINITION | SCHEMA | SCALAR | ENUM
+directive @need(b: Boolean!, d: Boolean! = true, i: Int) repeatable on QUERY | MUTATION | SUBSCRIPTION | FIELD | FRAGMENT_DEFINITION | FRAGMENT_SPREAD | INLINE_FRAGMENT | VARIABLE_DEFINITION
+extend type Query { need(b: Boolean!, d: Boolean! = true, i: Int): Int }
+extend type Human { need(b: Boolean!, d: Boolean! = true, i: Int): Int }
+"#;
+
+/// every directive application shape (argument present / missing / null / wrong kind / unknown / repeated,
+/// repeatable or not, defined or not, one directive per location) at every executable directive location
+fn stream_directive_sites(ctx: &mut Ctx, schema: &Valid<Schema>) {
+    // `#` is replaced by the directive application(s)
+    let sites: [(&str, &str); 14] = [
+        ("QUERY", "query Q# { val }"), ("MUTATION", "mutation M# { del(id: 1) }"), ("SUBSCRIPTION", "subscription S# { tick }"),
+        ("FIELD", "{ val# }"), ("FIELD-nested", "{ human(id: 1) { name# } }"), ("FIELD-in-fragment", "{ ...F } fragment F on Query { val# }"),
+        ("FIELD-subscription-root", "subscription { tick# }"),
+        ("FRAGMENT_DEFINITION", "{ ...F } fragment F on Query# { val }"), ("FRAGMENT_SPREAD", "{ ...F# } fragment F on Query { val }"),
+        ("INLINE_FRAGMENT", "{ ...# { val } }"), ("INLINE_FRAGMENT-on", "{ pet { ... on Dog# { id } } }"),
+        ("VARIABLE_DEFINITION", "query($x: Int#) { echo(i: $x) }"), ("VARIABLE_DEFINITION-second", "query($y: Int, $x: Int = 1#) { echo(i: $x, l: [$y]) }"),
+        ("FIELD-second-operation", "query A { val } query B { val# }"),
+    ];
+    let apps: [&str; 52] = [
+        "@skip(if: true)", "@skip", "@skip(if: null)", "@skip(if: 1)", "@skip(if: true, if: false)", "@skip(iff: true)", "@skip(if: true, x: 1)", "@skip(if: [true])",
+        "@include(if: false)", "@include", "@skip(if: true) @include(if: true)", "@skip(if: true) @skip(if: true)", "@deprecated", "@specifiedBy(url: \"x\")",
+        "@tag(name: \"a\")", "@tag", "@tag(name: null)", "@tag(name: 1)", "@tag(name: \"a\") @tag(name: \"b\")", "@tag(name: \"a\") @tag",
+        "@once", "@once(n: null)", "@once(n: \"s\")", "@once(req: true, n: 2)", "@once(n: 1, n: 1)", "@once(m: 1)", "@once @once", "@once @tag(name: \"a\") @once", "@once(n: 2147483648)",
+        "@onField(flag: true)", "@onField", "@onField(flag: null)", "@onField(flag: true) @onField(flag: true)", "@onQuery", "@onQuery(x: 1)", "@onQuery @onQuery",
+        "@defer", "@defer(if: null)", "@defer(label: \"a\")", "@defer(if: false, label: null)",
+        "@nope", "@nope @nope", "@nope(x: 1, x: 2)",
+        "@dQ", "@dM", "@dS", "@dF", "@dG", "@dP", "@dI", "@dV", "@dT",
+    ];
+    for (site, tpl) in sites.iter() {
+        for app in apps.iter() {
+            let text = tpl.replace('#', &format!(" {app}"));
+            ctx.stat_n(&format!("gb:dir-site:{site}"), 1);
+            match check_doc(ctx, schema, &text, "gb-directive-sites") { Some(true) => ctx.stat("gb:dir-site:valid"), Some(false) => ctx.stat("gb:dir-site:invalid"), None => ctx.stat("gb:dir-site:syntax") }
+        }
+    }
+}
+
+/// one variable, used at exactly one place, × every kind of place × every declaration (rules 5.8.3–5.8.5 walk
+/// different parts of the document: operation directives, field arguments and directives, spreads, the
+/// directives of the fragment DEFINITION, inline fragments, nested fragments, literals)
+fn stream_var_sites(ctx: &mut Ctx, schema: &Valid<Schema>) {
+    // `#D` = a directive application using the variable, `#A` = a field using it, `#V` = the variable definitions
+    let sites: [&str; 19] = [
+        "query Q#V#D { val }", "mutation M#V#D { del(id: 1) }", "subscription S#V#D { tick }",
+        "query Q#V { #A }", "query Q#V { val#D }", "query Q#V { human(id: 1) { #A } }", "query Q#V { human(id: 1) { name#D } }",
+        "query Q#V { ...#D { val } }", "query Q#V { ... on Query { #A } }",
+        "query Q#V { ...F#D } fragment F on Query { val }", "query Q#V { ...F } fragment F on Query#D { val }",
+        "query Q#V { ...F } fragment F on Query { #A }", "query Q#V { ...F } fragment F on Query { val#D }",
+        "query Q#V { ...F } fragment F on Query { human(id: 1) { ...G } } fragment G on Human { #A }",
+        "query Q#V { ...F } fragment F on Query { human(id: 1) { ...G } } fragment G on Human#D { id }",
+        "query Q#V { ...F ...F#D } fragment F on Query { val }",
+        "query Q#V { val } query R#V { #A }", "query Q#V { #A } query R#V { val }",
+        "query Q#V { ...F } query R { val } fragment F on Query#D { val }",
+    ];
+    let kinds: [(&str, &str); 3] = [("int", "b: true, i: $v"), ("bool-required", "b: $v"), ("bool-defaulted", "b: true, d: $v")];
+    let decls: [&str; 13] = ["", "Int", "Int!", "Int = 1", "Int = null", "String", "[Int]", "Boolean", "Boolean!", "Boolean = true", "Boolean = null", "Boolean! = false", "[Boolean!]!"];
+    for tpl in sites.iter() {
+        for (kind, args) in kinds.iter() {
+            for decl in decls.iter() {
+                for extra in [false, true] {
+                    if extra && !matches!(*decl, "Int" | "Boolean!" | "") { continue; }
+                    let mut vs: Vec<String> = vec![];
+                    if !decl.is_empty() { vs.push(format!("$v: {decl}")); }
+                    if extra { vs.push("$u: Int".into()); }
+                    let v = if vs.is_empty() { String::new() } else { format!("({})", vs.join(", ")) };
+                    let text = tpl.replace("#V", &v).replace("#D", &format!(" @need({args})")).replace("#A", &format!("need({args})"));
+                    ctx.stat_n(&format!("gb:var-site:{kind}"), 1);
+                    match check_doc(ctx, schema, &text, "gb-var-sites") { Some(true) => ctx.stat("gb:var-site:valid"), Some(false) => ctx.stat("gb:var-site:invalid"), None => ctx.stat("gb:var-site:syntax") }
+                }
+            }
+        }
+    }
+    // inside literals (list item, input-object field with and without default, custom scalar) and in two places
+    let lits: [&str; 8] = [
+        "{ echo(l: [$v]) }", "{ echo(l: [1, $v]) }", "{ human(id: 1, at: {x: 1, y: 1, z: $v}) { id } }", "{ human(id: 1, at: {x: 1, y: 1, tags: [$v]}) { id } }",
+        "{ search(ids: [], any: {k: [$v]}) { id } }", "{ search(ids: [], matrix: [[$v]]) { id } }", "{ echo(i: $v) x: echo(l: [$v]) }", "{ echo(i: $v) @skip(if: $v) }",
+    ];
+    for lit in lits.iter() { for decl in decls.iter() {
+        let text = if decl.is_empty() { lit.to_string() } else { format!("query($v: {decl}) {lit}") };
+        ctx.stat_n("gb:var-site:literal", 1);
+        check_doc(ctx, schema, &text, "gb-var-sites");
+    } }
+}
+
+/// default values of variable definitions: every declared type × every literal shape
+fn stream_var_defaults(ctx: &mut Ctx, schema: &Valid<Schema>) {
+    let types: [&str; 23] = ["Int", "Int!", "Float", "String", "Boolean", "ID", "Color", "Color!", "Any", "Point", "Point!", "[Int]", "[Int!]", "[Int!]!", "[[Int]]", "[Point!]", "Filter", "[Color]",
+        "Query", "Dog", "Pet", "Nope", "[Dog]"];
+    let defaults: [&str; 24] = ["null", "1", "1.5", "\"s\"", "true", "RED", "PURPLE", "[]", "[1]", "[null]", "[1, null]", "[[1]]", "{}", "{x: 1, y: 2}", "{x: 1}", "{x: 1, y: 2, y: 3}",
+        "{x: 1, y: 2, q: 3}", "{x: null, y: 1}", "2147483648", "[{x: 1, y: 2}]", "{at: {x: 1}}", "{id: null}", "[RED, PURPLE]", "{color: RED, sizes: [S, XL]}"];
+    for t in types.iter() { for d in defaults.iter() {
+        // the variable is used where only "is defined" matters (inside a list literal given to a custom scalar)
+        let text = format!("query($v: {t} = {d}) {{ search(ids: [], any: [$v]) {{ id }} }}");
+        ctx.stat_n("gb:var-default", 1);
+        match check_doc(ctx, schema, &text, "gb-var-defaults") { Some(true) => ctx.stat("gb:var-default:valid"), Some(false) => ctx.stat("gb:var-default:invalid"), None => {} }
+    } }
+}
+
+/// fragment spread possible / type conditions: every parent type × every type name, inline and named
+fn stream_spread_matrix(ctx: &mut Ctx, schema: &Valid<Schema>) {
+    let parents: [(&str, &str); 10] = [("Query", "{ # }"), ("Node", "{ node(id: 1) { # } }"), ("Named", "{ named { # } }"), ("Pet", "{ pet { # } }"), ("Lonely", "{ lonely { # } }"),
+        ("Human", "{ human(id: 1) { # } }"), ("Dog", "{ pet { ... on Dog { # } } }"), ("Cat", "{ named { ... on Cat { # } } }"), ("Mutation", "mutation { # }"), ("Subscription", "subscription { # }")];
+    let conds: [&str; 19] = ["Query", "Mutation", "Subscription", "Node", "Named", "Lonely", "Dog", "Cat", "Human", "Pet", "Int", "ID", "Any", "Color", "Point", "Filter", "Nope", "__Type", "__TypeKind"];
+    for (p, tpl) in parents.iter() { for c in conds.iter() {
+        let sub = if *p == "Subscription" && *c == "Subscription" { "tick" } else { "__typename" };
+        for form in 0..3 {
+            if *p == "Subscription" && form != 0 && *c != "Subscription" { /* still run: introspection at the subscription root is an Apollo rule of the oracle */ }
+            let text = match form {
+                0 => tpl.replace('#', &format!("... on {c} {{ {sub} }}")),
+                1 => format!("{} fragment F on {c} {{ {sub} }}", tpl.replace('#', "...F")),
+                _ => format!("{} fragment F on {p} {{ ...G }} fragment G on {c} {{ {sub} }}", tpl.replace('#', "...F")),
+            };
+            ctx.stat_n(&format!("gb:spread-matrix:{}", ["inline", "named", "nested"][form]), 1);
+            match check_doc(ctx, schema, &text, "gb-spread-matrix") { Some(true) => ctx.stat("gb:spread-matrix:valid"), Some(false) => ctx.stat("gb:spread-matrix:invalid"), None => {} }
+        }
+    } }
+}
+
+/// fragment cycles of length 1–3, the back edge and every other edge at each kind of position, entered
+/// directly or through an acyclic prefix, with a second operation that does not reach the cycle
+fn stream_cycles(ctx: &mut Ctx, schema: &Valid<Schema>) {
+    let place = |k: usize, sp: &str| -> String { match k { 0 => sp.to_string(), 1 => format!("... on O {{ {sp} }}"), 2 => format!("o {{ {sp} }}"), _ => format!("... {{ o {{ a {sp} }} }}") } };
+    for len in 1..=3usize {
+        let combos = 4usize.pow(len as u32);
+        for c in 0..combos {
+            if len == 3 && !ctx.thorough && c % 3 != 0 { continue; }
+            for entry in 0..3 {
+                let mut text = match entry { 0 => "{ o { ...F0 } }".to_string(), 1 => "{ o { ...P } } fragment P on O { b ...F0 }".to_string(), _ => "query A { o { a } } query B { o { ...P } } fragment P on O { b o { ...F0 } }".to_string() };
+                let mut cc = c;
+                for i in 0..len {
+                    let sp = format!("...F{}", (i + 1) % len);
+                    text.push_str(&format!(" fragment F{i} on O {{ a {} }}", place(cc % 4, &sp)));
+                    cc /= 4;
+                }
+                ctx.stat_n(&format!("gb:cycle:len{len}"), 1);
+                check_doc(ctx, schema, &text, "gb-cycles");
+                // the same shape without the back edge is valid
+                if c % 4 == 0 {
+                    let open = text.replace(&format!("...F{} }}", 0), "x }");
+                    if open != text { ctx.stat_n("gb:cycle:opened", 1); check_doc(ctx, schema, &open, "gb-cycles"); }
+                }
+            }
+        }
+    }
+}
+
+/// fields with many arguments: identical sets in another order, one value changed, one argument missing
+/// on either side — below and above the 20-argument threshold where `same_name_and_arguments` switches to a hash map
+fn stream_wide_args(ctx: &mut Ctx) {
+    let n_max = 26usize;
+    let defs: Vec<String> = (0..n_max).map(|i| format!("a{i}: Int")).collect();
+    let schema = load(&format!("type Query {{ w({}): Int v: Int }}", defs.join(", ")));
+    let ns: &[usize] = if ctx.thorough { &[1, 2, 3, 5, 10, 19, 20, 21, 22, 25, 26] } else { &[1, 2, 3, 19, 20, 21, 22, 26] };
+    for &n in ns {
+        let base: Vec<(usize, String)> = (0..n).map(|i| (i, i.to_string())).collect();
+        let mut variants: Vec<(&str, Vec<(usize, String)>)> = vec![("same", base.clone())];
+        { let mut v = base.clone(); v.reverse(); variants.push(("reversed", v)); }
+        { let mut v = base.clone(); v.rotate_left(n / 2); variants.push(("rotated", v)); }
+        for (what, i) in [("first-value", 0), ("middle-value", n / 2), ("last-value", n - 1)] { let mut v = base.clone(); v[i].1 = "99".into(); variants.push((what, v)); }
+        for (what, i) in [("drop-first", 0), ("drop-middle", n / 2), ("drop-last", n - 1)] { let mut v = base.clone(); v.remove(i); variants.push((what, v)); }
+        if n < n_max { let mut v = base.clone(); v.push((n, "7".into())); variants.push(("extra-last", v)); let mut v = base.clone(); v.insert(0, (n, "7".into())); variants.push(("extra-first", v)); }
+        if n < n_max { let mut v = base.clone(); v[n - 1].0 = n; variants.push(("renamed-last", v)); }
+        { let mut v = base.clone(); v.reverse(); v[0].1 = "98".into(); variants.push(("reversed-one-value", v)); }
+        let txt = |v: &[(usize, String)]| if v.is_empty() { "w".to_string() } else { format!("w({})", v.iter().map(|(i, x)| format!("a{i}: {x}")).collect::<Vec<_>>().join(", ")) };
+        for (what, v) in &variants {
+            for order in 0..2 {
+                let (x, y) = if order == 0 { (txt(&base), txt(v)) } else { (txt(v), txt(&base)) };
+                ctx.stat_n(&format!("gb:wide-args:{}", if n > 20 { "over-20" } else if n == 20 { "exactly-20" } else { "under-20" }), 1);
+                ctx.stat(&format!("gb:wide-args:{what}"));
+                merge_case(ctx, &schema, &format!("{{ {x} {y} }}"));
+                // … and with the second one behind a fragment / an alias that avoids the comparison
+                if order == 0 { merge_case(ctx, &schema, &format!("{{ {x} ...F }} fragment F on Query {{ {y} }}")); merge_case(ctx, &schema, &format!("{{ {x} k: {y} }}")); }
+            }
+        }
+    }
+}
+
+/// field nesting around apollo-compiler's field-merging depth limit (FIELD_DEPTH_LIMIT = 128): documents
+/// below the limit must get the specification's verdict; at and above it the verdict is recorded in the stats only
+fn stream_depth(ctx: &mut Ctx, schema: &Valid<Schema>) {
+    let depths: Vec<usize> = if ctx.thorough { (1..=140).collect() } else { vec![1, 2, 3, 8, 32, 64, 100, 120, 124, 125, 126, 127, 128, 129, 130, 140] };
+    for d in depths {
+        for (form, leaf_a, leaf_b) in [("plain", "a", ""), ("twin-ok", "x: a", "x: a"), ("twin-conflict", "x: a", "x: b")] {
+            let chain = |leaf: &str| { let mut t = String::new(); for _ in 0..d { t.push_str("o { "); } t.push_str(leaf); for _ in 0..d { t.push_str(" }"); } t };
+            let text = if leaf_b.is_empty() { format!("{{ {} }}", chain(leaf_a)) } else { format!("{{ {} {} }}", chain(leaf_a), chain(leaf_b)) };
+            let got = apollo(schema, &text);
+            let limit = matches!(&got, Ok((false, names)) if names.iter().any(|n| n == "RecursionLimitError" || n == "RecursionError" || n == "Other"));
+            ctx.stat_n(&format!("gb:depth:{form}:{}", if limit { "limit-reported" } else { "no-limit" }), 1);
+            if limit { ctx.stat(&format!("gb:depth:limit-reported-at:{d}")); continue; }
+            check_doc(ctx, schema, &text, "gb-depth");
+        }
+    }
+}
+
+/// meta fields and argument shapes of one field (required / defaulted / nullable argument: present, missing,
+/// null, repeated, unknown, wrong kind) at every kind of parent
+fn stream_field_sites(ctx: &mut Ctx, schema: &Valid<Schema>) {
+    let parents: [(&str, &str); 9] = [("query-root", "{ # }"), ("mutation-root", "mutation { # }"), ("subscription-root", "subscription { # }"), ("object", "{ human(id: 1) { # } }"),
+        ("interface", "{ node(id: 1) { # } }"), ("union", "{ pet { # } }"), ("inline", "{ ... on Query { # } }"), ("fragment", "{ ...F } fragment F on Query { # }"), ("list-of-union", "{ pets { # } }")];
+    let metas: [&str; 15] = ["__typename", "t: __typename", "__typename(x: 1)", "__typename { a }", "__typename @skip(if: true)", "__schema { types { name } }", "__schema", "__schema(x: 1) { types { name } }",
+        "__type(name: \"Dog\") { name }", "__type { name }", "__type(name: null) { name }", "__type(name: 1) { name }", "__type(name: \"a\", x: 1) { name }", "__type(name: \"Dog\")", "__typenam"];
+    for (p, tpl) in parents.iter() { for m in metas.iter() {
+        ctx.stat_n(&format!("gb:meta-field:{p}"), 1);
+        check_doc(ctx, schema, &tpl.replace('#', m), "gb-field-sites");
+    } }
+    let arg_sites: [&str; 5] = ["{ # }", "{ human(id: 1) { # } }", "{ ...F } fragment F on Query { # }", "{ human(id: 1) { ... on Human { # } } }", "query A { val } query B { # }"];
+    let apps: [&str; 16] = ["need(b: true)", "need", "need(b: null)", "need(b: true, d: null)", "need(b: true, d: false)", "need(b: true, i: null)", "need(b: true, b: true)", "need(b: true, x: 1)",
+        "need(b: 1)", "need(d: true)", "need(i: 1)", "need(b: [true])", "need(i: 1, d: false, b: false)", "need(b: true, i: 1, i: 1)", "need(b: true) { x }", "need(b: true, d: true, i: 2147483648)"];
+    for tpl in arg_sites.iter() { for a in apps.iter() {
+        ctx.stat_n("gb:field-args", 1);
+        check_doc(ctx, schema, &tpl.replace('#', a), "gb-field-sites");
+    } }
+}
+
 // the repository's own diagnostics/ok corpus, split into schema + executable parts ----------------
 fn corpus(ctx: &mut Ctx) {
     let base = std::env::var("VERIF_REPO").unwrap_or_else(|_| "/repo".into());
@@ -1584,6 +1811,16 @@ pub fn run(ctx: &mut Ctx) {
         check_doc(ctx, &any, t, "regression-custom-scalar-list");
     }
     corpus(ctx);
+    // generator audit GB
+    let dirs = load(&format!("{SCHEMA_MAIN}{SCHEMA_DIRS_EXTRA}"));
+    stream_directive_sites(ctx, &dirs);
+    stream_var_sites(ctx, &dirs);
+    stream_var_defaults(ctx, &main);
+    stream_spread_matrix(ctx, &main);
+    stream_cycles(ctx, &small);
+    stream_wide_args(ctx);
+    stream_depth(ctx, &small);
+    stream_field_sites(ctx, &dirs);
     stream_values(ctx);
     stream_samevalue(ctx, &small);
     stream_shape(ctx);
